@@ -562,13 +562,18 @@ def check_identifier_paths(ctx):
             if id(p.func) in seen:
                 continue
             seen.add(id(p.func))
-            for r in [n for n in walk_no_nested(p.func) if isinstance(n, ast.Return) and n.value is not None]:
-                root, steps = chain_steps(r.value)
-                plain = not steps and (norm(r.value) in ('p[0]',) or (isinstance(r.value, ast.Attribute) and norm(r.value.value) == 'p'))
-                ctx.ob('C04.id-text-intact', f'{d}:id:{norm(r.value)[:50]}', plain,
-                       f'{d}: the `id` action returns `{norm(r.value)}` instead of the untouched token text: quoting information '
+            # decided by interpretation: the action, called with the token text as sly hands it over, gives that text back
+            from ..interp import Interp as _I, Obj as _O, Raised as _R, Env as _E
+            from ..grammar import prod_record as _pr
+            for text in ('`a.b`', 'Plain', '`Mixed Case`', 'x1'):
+                try:
+                    got = _I.for_file(ctx.src, g.file, {}, lexer_token_stubs(ctx)).call_function(p.func, [_O('Parser'), _pr(p, [text])], {}, _E())
+                except _R as r_:
+                    got = f'<raises {r_.exc_name}>'
+                ctx.ob('C04.id-text-intact', f'{d}:id:{p.func.name}:{text}', got == text,
+                       f'{d}: the `id` action gives {got!r} for the token text {text!r} instead of the untouched text: quoting information '
                        f'(back-quotes) is lost before path_str_to_parts decides where to split, so a dot inside a quoted name '
-                       f'becomes a separator', file=g.file, line=r.lineno, witness='select `a.b` from t')
+                       f'becomes a separator', file=g.file, line=p.func.lineno, witness='select `a.b` from t')
     # path_str_to_parts itself keeps back-quoted segments whole and does not touch case
     tree = ctx.src.tree(IDENT)
     fn = None
